@@ -64,7 +64,7 @@ def post_all(ctx):
 
 
 def main(tier, seed):
-    items = standard_items(seed, tier, 8, 100, bench_quick=3, corpus_quick=10, ps_quick=6, ps_thorough=220)
+    items = standard_items(seed, tier, 8, 40, bench_quick=3, corpus_quick=10, ps_quick=6, ps_thorough=60, bench_thorough=15)
     variants = [("", {}), ("-c2a", {"cond2arithm": True}), ("-tc", {"transform_categoricals": True})]
     if tier != "quick":
         variants.append(("-c2a-tc", {"cond2arithm": True, "transform_categoricals": True}))
